@@ -43,6 +43,9 @@ var c18Programs = []string{
 	`<% let g = fn ( a ) { return a + 1 } %><%= g ( 1 ) + 1 %>|<%= g ( 2 ) == 3 %>|<%= if ( g ( 0 ) == 1 ) { %>y<% } %>`,
 	`<% let g = fn ( a ) { let t = a * 2 return t } %><%= g ( 2 ) * g ( 3 ) %>`,
 	`<%= for ( v ) in xs { let w = v * 2 %><%= w + 1 %>,<% } %>`,
+	// two function literals, two hash literals and two array literals in one tag (on one line in the canonical layout)
+	`<% let f = fn ( x ) { return x * 2 } let g = fn ( x ) { return x + 7 } %><%= f ( 3 ) %>,<%= g ( 3 ) %>`,
+	`<% let h = { "k" : 1 } let j = { "k" : 2 } let u = [ 1 ] let w = [ 2 ] %><%= h [ "k" ] %><%= j [ "k" ] %><%= u [ 0 ] %><%= w [ 0 ] %>`,
 }
 
 var c18Gaps = []string{"\t", "\n", "\r\n", "  ", " # c\n", "", " # c\n # d\n", "\n\n # c\n\t# d\r\n"}
